@@ -27,6 +27,11 @@ impl Drop for NoClockGuard {
     }
 }
 
+/// True while the compiler evaluates a constant sub-expression on this thread.
+pub fn folding_constants() -> bool {
+    COMPILE_TIME.with(|c| c.get())
+}
+
 /// The current time, unless a constant is being evaluated by the compiler.
 pub fn now() -> CelResult<DateTime<Utc>> {
     if COMPILE_TIME.with(|c| c.get()) {
